@@ -34,8 +34,9 @@ def kernel_values(payload):
     out = []
     for (x, mu, theta, ld, W, N) in payload:
         v = lk.point_log_likelihood_fast(x, mu, theta, ld, W, N)
-        tab = lk.all_points_all_clusters_log_likelihood_fast(W, 2, np.array([mu, mu + 1.0]), np.array([theta, theta * 2.0]),
-                                                             np.array([ld, ld + len(x) * math.log(2.0)]), np.array([x, mu, x + 0.5]))
+        step = float(np.max(np.abs(x - mu))) + 1e-300          # cluster 1 / point 2 are shifted by about one spread
+        tab = lk.all_points_all_clusters_log_likelihood_fast(W, 2, np.array([mu, mu + step]), np.array([theta, theta * 2.0]),
+                                                             np.array([ld, ld + len(x) * math.log(2.0)]), np.array([x, mu, x + 0.5 * step]))
         out.append((float(v), tab))
     return out
 
@@ -66,6 +67,8 @@ def run(ctx):
             theta = random_spd(rng, n, tl)
             sc = math.exp(-tl / (2 * n))
             mu = rng.normal(size=n) * sc
+            if i % 5 == 4:
+                mu = mu + sc * [1e4, 1e6, 1e8][(i // 5) % 3]      # sensor values with a large offset relative to their spread
             x = mu + rng.normal(size=n) * sc * [1.0, 3.0, 0.1][i % 3]
             ld = np.linalg.slogdet(theta)[1]
             case = {"n": n, "target_logdet": tl}
@@ -114,10 +117,11 @@ def run(ctx):
                 if a[1].shape != (3, 2) or b[1].shape != (3, 2) or not np.allclose(a[1], b[1], rtol=1e-10, atol=1e-8):
                     ctx.violation("monitor", "table kernel differs between interpreted and JIT mode", {"index": i, "seed": ctx.seed})
                 # plumbing: cell (p, c) = point p under cluster c
-                pts = [x, mu, x + 0.5]
+                step = float(np.max(np.abs(x - mu))) + 1e-300
+                pts = [x, mu, x + 0.5 * step]
                 for p in range(3):
                     for c in range(2):
-                        refpc = independent_logpdf(pts[p], mu + c * 1.0, theta * (1.0 + c))
+                        refpc = independent_logpdf(pts[p], mu + c * step, theta * (1.0 + c))
                         if abs(a[1][p, c] - refpc) > 1e-8 * max(1.0, abs(refpc)) + 1e-6 * abs(ref):
                             ctx.violation("monitor", "table cell (%d,%d) is not point %d under cluster %d" % (p, c, p, c), {"index": i, "seed": ctx.seed})
         else:
@@ -127,6 +131,9 @@ def run(ctx):
         # (d) traced runs
         runs = e2e.cached_runs(ctx, e2e.standard_grid(ctx.seed, ctx.thorough), "std")
         runs.append(e2e.traced_run({"N": 2, "W": 2, "K": 2, "beta": 1.0, "lengths": [30], "limit": 2, "m": 1, "data_seed": 1, "rng_seed": 1, "joint": False}))
+        # sensor readings with a large constant offset (e.g. time stamps, absolute pressures)
+        runs += e2e.cached_runs(ctx, [{"N": 2, "W": 2, "K": 2, "beta": 2.0, "lam": 0.11, "limit": 3, "m": 2, "biased": False, "eps": 0, "joint": False,
+                                       "lengths": [60], "data_seed": 31 + j, "rng_seed": 31 + j, "regimes": 2, "offset": off} for j, off in enumerate([1e5, 1e7])], "c05")
         from fast_ticc import data_preparation as dp
         for r in runs:
             ctx.count("run")
